@@ -640,6 +640,9 @@ func TestVerifC10(t *testing.T) {
 		vs.E1(t, "stateful-sse/abandoned-server-request", b, vs.Options{}, func() vs.Verdict { return c10UpcallCancel("c10 upcall-cancel", false, true) }),
 		vs.E1(t, "stateful-sse/abandoned-server-request/no-standalone-stream", b, vs.Options{}, func() vs.Verdict { return c10UpcallCancel("c10 upcall-cancel", false, false) }),
 		vs.E1(t, "stateful-json/abandoned-server-request", b, vs.Options{}, func() vs.Verdict { return c10UpcallCancel("c10 upcall-cancel", true, true) }),
+		// the handler ends its own SSE stream while the client resumes: whatever the server writes
+		// afterwards must still reach an exchange of that request (C08's scenario, judged here too)
+		vs.E1(t, "stateful-sse+store/handler-closes-stream-vs-resume", env.Pick(2, 3), vs.Options{}, func() vs.Verdict { return c08RaceAs("c10 close-vs-resume", "2025-06-18", true) }),
 		vs.E1(t, "stateful-sse/cut-then-retry-same-id", env.Pick(2, 3), vs.Options{}, func() vs.Verdict { return c10CutRetry(false) }),
 		vs.E1(t, "stateful-sse+store/cut-then-retry-same-id", env.Pick(2, 3), vs.Options{}, func() vs.Verdict { return c10CutRetry(true) }),
 	}
